@@ -62,6 +62,34 @@ type opLine struct {
 	what   string
 	ud     *unitData
 	nontrivial bool
+	item   string // the IDL definition the op is about (the minimised input of an oracle failure)
+}
+
+// defText cuts one definition out of the rendered IDL: the `const` line, or the struct-like's block.
+func defText(p *idlgen.Program, file int, kind, name string) string {
+	text := p.Render()[p.Files[file].Path]
+	lines := strings.Split(text, "\n")
+	for i, l := range lines {
+		switch kind {
+		case "const":
+			if strings.HasPrefix(l, "const ") && strings.Contains(l, " "+name+" = ") {
+				return l
+			}
+		default:
+			for _, kw := range []string{"struct ", "union ", "exception "} {
+				if l == kw+name+" {" {
+					j := i
+					for j < len(lines) && lines[j] != "}" {
+						j++
+					}
+					if j < len(lines) {
+						return strings.Join(lines[i:j+1], "\n")
+					}
+				}
+			}
+		}
+	}
+	return kind + " " + name
 }
 
 func run(repo, dir string, seed uint64, tier string, nprog, nwild int, keep bool, replay string) int {
@@ -235,12 +263,19 @@ func run(repo, dir string, seed uint64, tier string, nprog, nwild int, keep bool
 			if fails <= 10 {
 				fmt.Printf("ORACLE FAIL [%s %s] %s\n  op: %.300s\n  got: %.300s\n", l.ud.u.Key, strings.Join(l.ud.u.Options, ","), msg, l.text, ans)
 			}
-			key := l.what + ":" + l.ud.u.Tag + ":" + strings.Join(l.ud.u.Options, ",") + ":" + l.text
+			// the key is the minimised input: the definition the op is about and the class of the failure (the text
+			// of the message up to the first value), not the position of the unit in the batch
+			class := msg
+			if i := strings.IndexAny(class, ":="); i > 0 {
+				class = class[:i]
+			}
+			key := l.what + ":" + l.item + ":" + class
 			if l.ud.defect != "" {
 				key = "defect:" + l.ud.defect
 			}
-			out.Fail(vl.OracleFail{Key: key, What: l.what + ": " + msg,
-				Input: unitInput(l.ud, l.text), Expected: msg, Observed: ans})
+			in := unitInput(l.ud, l.text)
+			in["definition"] = l.item
+			out.Fail(vl.OracleFail{Key: key, What: l.what + ": " + msg, Input: in, Expected: msg, Observed: ans})
 		} else {
 			out.Count("oracle.ok." + l.what)
 		}
@@ -346,6 +381,10 @@ func valueOps(r *vl.Rng, ud *unitData, out *vl.Out) []*opLine {
 	out.Count("unit.options." + strings.Join(u.PLineOptions(), ","))
 	// the unit was accepted by thriftgo: the model must accept every initialiser
 	ls = append(ls, &opLine{text: "Q " + u.Key, impl: "accept", ud: ud, what: "Q"})
+	if ud.defect == "" {
+		// the programs of the compiled suite lie inside the hypotheses of const_value (`good` holds everywhere)
+		ls = append(ls, &opLine{text: "H " + u.Key, impl: "ok 0", ud: ud, what: "H"})
+	}
 
 	// constants
 	idlConst := map[string]*idlgen.ConstDef{}
@@ -364,7 +403,7 @@ func valueOps(r *vl.Rng, ud *unitData, out *vl.Out) []*opLine {
 		want := values.SortMaps(ic.Value.Val)
 		countShape(out, "const", ic.Value)
 		text := fmt.Sprintf("K %s %d %s %s", u.Key, cd.file, vl.Hex(cd.c.Name), rt)
-		ls = append(ls, &opLine{text: text, driver: true, ud: ud, what: "K", nontrivial: true, check: func(ans string) string {
+		ls = append(ls, &opLine{text: text, driver: true, ud: ud, what: "K", nontrivial: true, item: defText(ud.prog, cd.file, "const", cd.c.Name), check: func(ans string) string {
 			return sameValue(ans, want)
 		}})
 		// the generator's intention against the model's IDL-side evaluator
@@ -385,8 +424,9 @@ func valueOps(r *vl.Rng, ud *unitData, out *vl.Out) []*opLine {
 				}
 			}
 		}
-		ls = append(ls, &opLine{text: "N " + key, driver: true, ud: ud, what: "N", nontrivial: true, check: func(ans string) string { return sameValue(ans, init) }})
-		ls = append(ls, &opLine{text: "Z " + key, driver: true, ud: ud, what: "Z", nontrivial: true, check: func(ans string) string { return sameValue(ans, init) }})
+		item := defText(ud.prog, st.File, "struct", st.Name)
+		ls = append(ls, &opLine{text: "N " + key, driver: true, ud: ud, what: "N", nontrivial: true, item: item, check: func(ans string) string { return sameValue(ans, init) }})
+		ls = append(ls, &opLine{text: "Z " + key, driver: true, ud: ud, what: "Z", nontrivial: true, item: item, check: func(ans string) string { return sameValue(ans, init) }})
 		vals := []*values.Value{init.Clone(), st.Zero()}
 		for k := 0; k < 3; k++ {
 			vals = append(vals, valgen.Gen(r, u.Schema, sidx, 1+r.Intn(3), vcfg))
@@ -402,7 +442,7 @@ func valueOps(r *vl.Rng, ud *unitData, out *vl.Out) []*opLine {
 		for _, v := range vals {
 			v := v
 			st := st
-			ls = append(ls, &opLine{text: "G " + key + " " + v.String(), driver: true, ud: ud, what: "G", nontrivial: true, check: func(ans string) string {
+			ls = append(ls, &opLine{text: "G " + key + " " + v.String(), driver: true, ud: ud, what: "G", nontrivial: true, item: item, check: func(ans string) string {
 				return checkG(st, v, ans)
 			}})
 		}
